@@ -1373,4 +1373,38 @@ example : docSecs C01_toyEnv [] ⟨none, []⟩ 1 C01_exRefBlocks =
   simp [docSecs, C01_exRefBlocks, itemsFrom, SItem.toItem, ingrsOf, SItem.ingr?, Section.isEmpty, C01_txt, Text.trimmed,
     Text.outerTrimmed, Text.text, trim, trimStart, trimEnd, hasDoubleSpace, C01_toyEnv, toyCharSpec]
 
+/-- the cookware counterpart of `C01_reference_event_partial`: a correctly written `#&name` (REF, not NEW;
+    the last earlier non-REF cookware item of that name is the definition at `t`; no modifier the
+    definition lacks — HIDDEN and OPT are inherited; no note; amounts agree in being text or not) appends
+    `cwAsReference …` (relation = reference to `t`, modifiers = written ∪ inherited ∪ REF), rewrites the
+    definition to list the new index at the end of `referenced_from`, appends the item to the open step,
+    and reports nothing.  Partial as the ingredient version: default modes only. -/
+theorem C01_cookware_reference_event_partial {α : Type} [Arith α] (env : Env) (input : Str) (lc : Loc (PCookware α))
+    (s : Col α) (items : List Item) (t : Nat) (defn : Cookware (ScalableValue α)) (defLoc : Loc (PCookware α))
+    (rf : List Nat) (b : Bool)
+    (hd : s.defineMode = .all) (hdup : s.duplicateMode = .new) (hb : s.block = some (.step items))
+    (hlock : ∀ q, lc.val.quantity = some q → lockOK q.val false)
+    (hREF : lc.val.modifiers.val.contains Modifiers.REF = true)
+    (hNEW : lc.val.modifiers.val.contains Modifiers.NEW = false)
+    (hfound : sameNameIdx env (s.cookware.toList.map (fun x => (x.name, x.modifiers))) (cwOf env lc).name = some t)
+    (hdefn : s.cookware[t]? = some defn) (hloc : s.locCw[t]? = some defLoc)
+    (hrel : defn.relation = .definition rf b)
+    (hconf : refConflict lc.val.modifiers.val ⟨defn.modifiers.bits &&& (Modifiers.HIDDEN ||| Modifiers.OPT)⟩ = 0)
+    (hq : CwRefChecksQuiet lc (cwOf env lc).quantity defn b) :
+    (processEvent env input (.cookware lc) s).2 =
+      { s with
+        locCw := s.locCw.push lc,
+        cookware := (s.cookware.setIfInBounds t (cwBacklinked defn rf s.cookware.size b)).push
+          (cwAsReference (cwOf env lc) defn.modifiers t),
+        block := some (.step (items ++ [.cookware s.cookware.size])) } :=
+  rtf_proc_cookware_ref env input lc s items t defn defLoc rf b hd hdup hb hlock hREF hNEW hfound hdefn hloc hrel hconf hq
+
+/-! example: `#pot{}` … `#&pot`: the fold returns the reference with the back-link and no diagnostic -/
+def C01_exPotRef : Loc (PCookware Rat) := ⟨⟨⟨⟨Modifiers.REF⟩, ⟨41, 42⟩⟩, C01_txt "pot" 42, none, none, none⟩, ⟨40, 45⟩⟩
+example : (parseEvents C01_toyEnv [] [.start .step, .cookware C01_exPot1, .cookware C01_exPotRef, .stop .step]).output.map
+      (fun c => (c.cookware.toList.map (·.relation), c.sections, c.diags.toList)) =
+    some ([.definition [1] true, .reference 0], [⟨none, [.step ⟨[.cookware 0, .cookware 1], 1⟩]⟩], []) := by rfl
+example : CwRefChecksQuiet C01_exPotRef (cwOf C01_toyEnv C01_exPotRef).quantity (cwOf C01_toyEnv C01_exPot1) true :=
+  ⟨rfl, by decide, fun rq dq h => by cases h⟩
+
 end Cook
